@@ -97,6 +97,7 @@ type FuncContract struct {
 	Tags       []string
 	Requires   []Clause
 	Ensures    []Clause
+	Checks     []Clause // internal postconditions: may mention locals; not visible to callers
 	Modifies   []ModLoc
 	ModifiesSet bool
 	GhostEntry []GhostAssign
@@ -571,7 +572,7 @@ func (ps *parser) parsePrimary() Expr {
 
 var declKeywords = map[string]bool{"ghost": true, "pure": true, "pred": true, "rec": true, "func": true, "axiom": true, "lemma": true,
 	"package": true, "import": true, "abstract": true, "iface": true, "functype": true, "fieldfunc": true}
-var clauseKeywords = map[string]bool{"requires": true, "ensures": true, "modifies": true, "ghost_entry": true,
+var clauseKeywords = map[string]bool{"requires": true, "ensures": true, "check": true, "modifies": true, "ghost_entry": true,
 	"ghost_exit": true, "loop": true, "call": true, "mode": true, "allocates": true, "tags": true, "ghostparams": true}
 
 type rawLine struct {
@@ -736,17 +737,20 @@ func parseClause(fc *FuncContract, w, rest string, en rawLine, path string) erro
 		fc.Mode = strings.TrimSpace(rest)
 	case "allocates":
 		fc.Allocates = true
-	case "requires", "ensures":
+	case "requires", "ensures", "check":
 		tags, body := parseTags(rest)
 		e, err := parseExpr(body)
 		if err != nil {
 			return err
 		}
 		cl := Clause{Tags: tags, E: e, Text: body, Line: en.line, File: path}
-		if w == "requires" {
+		switch w {
+		case "requires":
 			fc.Requires = append(fc.Requires, cl)
-		} else {
+		case "ensures":
 			fc.Ensures = append(fc.Ensures, cl)
+		default:
+			fc.Checks = append(fc.Checks, cl)
 		}
 	case "modifies":
 		fc.ModifiesSet = true
